@@ -26,7 +26,7 @@ def scale_symmetric(A):
         for k in range(len(a_data)):
             R[a_cols[k]] += a_data[k]
 
-        R[R < 1e-10] = 1.0
+        R[R == 0.0] = 1.0
         R = np.sqrt(R)
 
         Rsca = 1 - np.frexp(R)[1]
